@@ -67,14 +67,14 @@ pub fn run_parent(prop: &str, tier: &str, seed: u64, n_cases: usize, shards: usi
                     let out = child.stdout.take().expect("stdout");
                     let mut err = child.stderr.take().expect("stderr");
                     // CPU-time watchdog (load independent): a case that burns more CPU time than
-                    // `PV_CASE_CPU_LIMIT_S` (default 120 s; honest cases take well under a second) is killed
+                    // `PV_CASE_CPU_LIMIT_S` (default 40 s; honest cases take well under a second) is killed
                     let pid = child.id();
                     let cur_case = std::sync::Arc::new(AtomicUsize::new(usize::MAX));
                     let stop = std::sync::Arc::new(std::sync::atomic::AtomicBool::new(false));
                     let timed_out = std::sync::Arc::new(std::sync::atomic::AtomicBool::new(false));
                     let wd = {
                         let (cur_case, stop, timed_out) = (cur_case.clone(), stop.clone(), timed_out.clone());
-                        let limit: f64 = std::env::var("PV_CASE_CPU_LIMIT_S").ok().and_then(|x| x.parse().ok()).unwrap_or(120.0);
+                        let limit: f64 = std::env::var("PV_CASE_CPU_LIMIT_S").ok().and_then(|x| x.parse().ok()).unwrap_or(40.0);
                         std::thread::spawn(move || {
                             let cpu = || -> Option<f64> {
                                 let st = std::fs::read_to_string(format!("/proc/{pid}/stat")).ok()?;
